@@ -90,3 +90,10 @@ Definition session_has_timer := session_has_timer_form session_timer_from_header
 (* ---- C10: does dropping a UsageGuard remove its usage when another thread is inside the dialog layer -------------------- *)
 Definition guard_drop_removes_form (waits_for_lock : bool) (lock_held_elsewhere : bool) : bool := waits_for_lock || negb lock_held_elsewhere.
 Definition guard_drop_removes := guard_drop_removes_form usage_guard_drop_waits.
+
+(* ---- C20: from which instant on does a response carrying the request's transaction id find the request ---------------------- *)
+(* first_send_done = the instant the transport's send_to future of the first transmission completes; resp_at = arrival of the response *)
+Definition registered_from_form (before_send : bool) (first_send_done : N) : N := if before_send then 0%N else first_send_done.
+Definition response_matched_form (before_send : bool) (first_send_done resp_at : N) : bool :=
+  (registered_from_form before_send first_send_done <=? resp_at)%N.
+Definition response_matched := response_matched_form stun_tsx_registered_before_send.
